@@ -12,6 +12,9 @@ FIRST_CAUGHT = {
     "C15-m3", "C15-m4", "C16-m4",
     # round 3 (checks as strengthened after round 2)
     "C02-m5", "C05-m5", "C06-m5", "C08-m5", "C08-m6", "C09-m5", "C11-m6", "C13-m6", "C15-m6", "C16-m5", "C18-m6",
+    # round 4 (checks as strengthened after round 3; two changes per property)
+    "C01-m8", "C05-m7", "C05-m8", "C06-m7", "C06-m8", "C07-m8", "C08-m8", "C09-m8", "C11-m7", "C12-m8", "C13-m7", "C14-m7",
+    "C15-m7", "C16-m8", "C17-m7", "C18-m7",
 }
 FIRST_NOTE = {
     "C06-m1": "caught once the position table had been extended (comparison chains)",
@@ -26,12 +29,17 @@ FIRST_NOTE = {
     "C09-m6": "missed by C09, caught by C14",
     "C16-m6": "missed by C16, caught by C19",
     "C19-m5": "missed by C19 (tsh and the library fail alike), C14 ran into a defect of its own harness - counted as missed",
+    "C03-m8": "missed by C03, caught by C04 (evaluation order of index and value)",
+    "C10-m7": "missed: every path of the check left the interpreted part of Go (maps.Clone) - such runs now print a note",
+    "C15-m8": "missed: every path of the check left the interpreted part of Go (regexp ReplaceAllString) - such runs now print a note",
+    "C11-m8": "missed: the deciding paths were unsupported (strings.IndexByte on symbolic text)",
+    "C19-m7": "missed: the native probes were all spent on the documented option order",
 }
 
 final = {}
 for log in sys.argv[1:]:
     for line in open(log, errors="replace"):
-        m = re.search(r"== mutant \S*/(C\d+-m\d)\b(.*)", line)
+        m = re.search(r"== mutant \S*/(C\d+-m\d+)\b(.*)", line)
         if not m:
             continue
         checks = re.findall(r"-- check (C\d+) exit=(\d+)", m.group(2))
